@@ -166,7 +166,10 @@ def run_job(job, workroot, ctx):
     env["BINDINGS"] = bindings
     for k in ("RUSTFLAGS", "RUSTC_WRAPPER"):
         env.pop(k, None)
-    res = {"status": "ok", "world": world, "native": 0, "wasm": False, "imports": 0, "exports": 0}
+    res = {"status": "ok", "world": world, "native": 0, "wasm": False, "imports": 0, "exports": 0, "build_only": False}
+    if ctx.get("tier") == "quick":
+        ctx = dict(ctx)
+        ctx["editions"] = ("2024",) if int(vcommon.stable_hash(job["id"]), 16) % 2 else ("2021",)
 
     def fail(stage, err, what):
         code, msg = _first_error(err)
@@ -183,7 +186,7 @@ def run_job(job, workroot, ctx):
 
     # native type-check, as crates/test/src/rust.rs `verify` (without -Dwarnings)
     host = ctx["host"]
-    for edition in ("2021", "2024"):
+    for edition in ctx.get("editions", ("2021", "2024")):
         cmd = ["rustc", "+nightly", "--edition=" + edition, "--crate-type=rlib", "--crate-name", "verif_bindings", "--emit=metadata",
                "-L", "dependency=" + host["deps"], "--extern", "wit_bindgen=" + host["wit_bindgen"], "-o", os.path.join(d, "native-%s.rmeta" % edition), bindings]
         rc, out, err = vcommon.sh(cmd, env=env, timeout=600)
@@ -253,11 +256,15 @@ def run(tier, seed, replay):
         import cli
         cli.build_cli()
         ctx = prepare_base()
+        # quick: one native edition per job (alternating), thorough: both
         if replay:
             jobs, stats = compz.replay_job(replay, work, VARIANTS), {}
         else:
+            ctx["tier"] = tier
             if tier == "quick":
                 jobs, stats = compz.plan("rust", tier, seed, work, VARIANTS, 20, PROFILES, quick_corpus=(1, 4))
+                # the `temporaries` world fails the same way under every option set: one variant is enough
+                jobs = [j for j in jobs if not (j["name"] == "temporaries" and j["variant"] != "default")]
             else:
                 jobs, stats = compz.plan("rust", tier, seed, work, VARIANTS, 300, PROFILES)
         counts = {"ok": 0, "violation": 0, "inconclusive": 0}
